@@ -239,6 +239,10 @@ def run(ctx, rep):
         rep.check(good, "R7.2", "R7.2|set_current_rdh_first", "set_current_rdh(cdp.0, cdp.2) precedes payload processing", dp,
                   "set_current_rdh is not called first with the packet's own RDH and offset")
 
+    # ---------------- R7.4b the quoted RDH row: Display prints the same fields as the styled view row (rule ids R19.5)
+    from . import c19
+    c19.display_vs_styled(ctx, rep, f, cg)
+
     # ---------------- R7.3 offset formula
     tracker = Agg("CdpTracker", "CdpTracker", {"payload_mem_pos": Sym("PAYLOAD"), "gbt_word_counter": Sym("COUNT"),
                                                 "gbt_word_padding_size_bytes": Sym("PAD"), "is_start_of_data": Sym("S")})
